@@ -57,6 +57,26 @@ func c06Lifecycle(c *h.Ctx) {
 		}
 		if early {
 			reg() // registered while the face is still in the table
+			if r.Intn(3) == 0 {
+				// ... and withdrawn again by the face itself, naming itself as "face 0" or not at all
+				a := &mgmt.ControlArgs{Name: pfx}
+				if r.Intn(2) == 0 {
+					a.FaceId = u64p(0)
+				}
+				cp := c17Params(a)
+				d.log = append(d.log, fmt.Sprintf("%s: face %d unregisters %s for itself (FaceId %s)", id, f.id, pfx, fmtU(a.FaceId)))
+				resp := d.command(f, "/localhost/nfd", "rib", "unregister", &cp, 15*time.Second)
+				if resp == nil {
+					c.Inconclusive("lifecycle: rib/unregister unanswered")
+					return
+				}
+				if rs, hs := refs(f.id); resp.StatusCode == 200 && (len(rs) > 0 || len(hs) > 0) {
+					d.fail("C06:nexthop-of-unregistered-route-remains:"+algo, id, fmt.Sprintf("rib/unregister of %s by face %d for itself was answered 200, but RIB routes %v and FIB next hops %v still refer to the face", pfx, f.id, rs, hs), nil)
+					return
+				}
+				c.Count("self_unregistrations", 1)
+				reg()
+			}
 		}
 		cp := c17Params(&mgmt.ControlArgs{FaceId: u64p(f.id)})
 		if !early || r.Intn(2) == 0 {
